@@ -90,11 +90,11 @@ def TokenPattern (d : SimpleDef) (k : Nat) : Prop :=
 /-- such a type accepts a string exactly when its white-space-collapsed text matches the type's
     expression in full (no other gate, no silent acceptance) -/
 theorem token_pattern_accepts_iff (env : Env) (fuel : Nat) (d : SimpleDef) (k : Nat) (r : RE Char)
-    (h : TokenPattern d k) (hr : lookupPat k env.pats = some r) (s : String) :
+    (h : TokenPattern d k) (hk : (d.key == env.dateKey) = false) (hr : lookupPat k env.pats = some r) (s : String) :
     validate env (fuel + 1) d (.str s) = .ok ↔ RE.rmatch r (cleanedToken s).toList = true := by
   obtain ⟨h1, h2, h3, h4, h5, h6, h7, h8⟩ := h
   simp only [validate, gateTypes, h2, List.isEmpty_nil, if_true, typeGate, inStrs, h3, List.contains_nil,
-    Bool.false_or, pyTypeOf, h1, h4, h5, h6, h7, h8, hr, fullmatch, Bool.false_and]
+    Bool.false_or, pyTypeOf, h1, h4, h5, h6, h7, h8, hr, hk, fullmatch, Bool.false_and]
   by_cases hm : RE.rmatch r (cleanedToken s).toList = true
   · simp [hm]
   · simp [hm]
@@ -106,14 +106,36 @@ def PlainPattern (d : SimpleDef) (k : Nat) : Prop :=
   d.isNonNeg = false ∧ d.isPositive = false
 
 theorem plain_pattern_accepts_iff (env : Env) (fuel : Nat) (d : SimpleDef) (k : Nat) (r : RE Char)
-    (h : PlainPattern d k) (hr : lookupPat k env.pats = some r) (s : String) :
+    (h : PlainPattern d k) (hk : (d.key == env.dateKey) = false) (hr : lookupPat k env.pats = some r) (s : String) :
     validate env (fuel + 1) d (.str s) = .ok ↔ RE.rmatch r s.toList = true := by
   obtain ⟨h1, h2, h3, h4, h5, h6, h7, h8⟩ := h
   simp only [validate, gateTypes, h2, List.isEmpty_nil, if_true, typeGate, inStrs, h3, List.contains_nil,
-    Bool.false_or, pyTypeOf, h1, h4, h5, h6, h7, h8, hr, fullmatch, Bool.false_and]
+    Bool.false_or, pyTypeOf, h1, h4, h5, h6, h7, h8, hr, hk, fullmatch, Bool.false_and]
   by_cases hm : RE.rmatch r s.toList = true
   · simp [hm]
   · simp [hm]
+
+/-- xs:date itself: the lexical expression **and** the day-of-month constraint of the value space
+    (no 30 February, 29 February in leap years only — proleptic Gregorian, year 0 and negative years included) -/
+theorem date_accepts_iff (env : Env) (fuel : Nat) (d : SimpleDef) (k : Nat) (r : RE Char)
+    (h : PlainPattern d k) (hk : (d.key == env.dateKey) = true) (hr : lookupPat k env.pats = some r) (s : String) :
+    validate env (fuel + 1) d (.str s) = .ok ↔ (RE.rmatch r s.toList = true ∧ dateDayOk s.toList = true) := by
+  obtain ⟨h1, h2, h3, h4, h5, h6, h7, h8⟩ := h
+  simp only [validate, gateTypes, h2, List.isEmpty_nil, if_true, typeGate, inStrs, h3, List.contains_nil,
+    Bool.false_or, pyTypeOf, h1, h4, h5, h6, h7, h8, hr, hk, fullmatch, Bool.false_and]
+  by_cases hm : RE.rmatch r s.toList = true
+  · by_cases hd : dateDayOk s.toList = true
+    · simp [hm, hd]
+    · simp [hm, hd]
+  · simp [hm]
+
+/-- the calendar facts the check rests on, decided: lengths of February in 1900, 2000, 2024, year 0, year −4 -/
+example : daysInMonth 1900 2 = 28 ∧ daysInMonth 2000 2 = 29 ∧ daysInMonth 2024 2 = 29 ∧ daysInMonth 2023 2 = 28 ∧
+    daysInMonth 0 2 = 29 ∧ daysInMonth (-4) 2 = 29 ∧ daysInMonth (-1) 2 = 28 ∧ daysInMonth 2001 4 = 30 ∧
+    daysInMonth 2001 12 = 31 := by decide
+example : dateDayOk "2000-02-29".toList = true ∧ dateDayOk "1900-02-29".toList = false ∧
+    dateDayOk "-0004-02-29+02:00".toList = true ∧ dateDayOk "2001-04-31Z".toList = false ∧
+    dateDayOk "12345-02-29".toList = false := by decide
 
 /-- non-string values never pass such a type -/
 theorem token_pattern_rejects_nonstring (env : Env) (fuel : Nat) (d : SimpleDef) (k : Nat)
@@ -147,6 +169,7 @@ end C05
 #print axioms C05.minInclusive_exact
 #print axioms C05.token_pattern_accepts_iff
 #print axioms C05.plain_pattern_accepts_iff
+#print axioms C05.date_accepts_iff
 #print axioms C05.token_pattern_rejects_nonstring
 #print axioms C05.bool_passes_integer
 #print axioms C05.exponent_float_passes_decimal
